@@ -1,6 +1,8 @@
 """C12 — API-mode modules faithfully reflect the C source and detect mismatches.
 
 Tie A (regeneration): coq/C12/Gen.v is rebuilt on every run from the text of
+  parse_c_type.c (parse_sequel: the statements deciding, from the constant getter's return code and value,
+  between an array length and a parse error — tools/props/c12_regen.py),
   recompiler.py (_generate_cpy_const: the two generated C expressions, the '%dU' literal rule,
   the `n |= 2` failure bit; which callers pass a check_value), _cffi_include.h (_cffi_check_int),
   parse_c_type.h / _cffi_backend.c / realize_c_type.c (flag values, the flag used by the
@@ -16,6 +18,7 @@ import re
 from lib import vlib
 from lib.vlib import cz, cbool, clist
 from props import c12_worker as W
+from props import c12_regen
 
 ID = "C12"
 GEN = os.path.join(vlib.COQ, "C12", "Gen.v")
@@ -195,13 +198,22 @@ def translate_gen():
     kw = {k.arg: k.value for k in c.keywords}
     if len(c.args) != 2:
         raise Untranslatable("_generate_cpy_enum_decl: positional arguments")
-    if "check_value" in kw:
-        # accepted shape of a checked variant: check_value=<name bound by zip(tp.enumerators, tp.enumvalues)>
-        if not isinstance(kw["check_value"], ast.Name):
-            raise Untranslatable("_generate_cpy_enum_decl: check_value expression")
-        enum_checked = True
+    loop = f.body[0]
+    norm_loop = " ".join(ast.unparse(loop).split())
+    ZIP = "for enumerator, enumvalue in zip(tp.enumerators, tp.enumvalues):"
+    if "check_value" not in kw:
+        if norm_loop != "for enumerator in tp.enumerators: self._generate_cpy_const(True, enumerator)":
+            raise Untranslatable("_generate_cpy_enum_decl: unchecked variant of unknown shape")
+        enum_checked, enum_partial_checked = False, False
+    elif norm_loop == ZIP + " self._generate_cpy_const(True, enumerator, check_value=enumvalue)":
+        # every enumerator checked against the cdef's value, also those of 'enum e { A, ... }'
+        enum_checked, enum_partial_checked = True, True
+    elif norm_loop == (ZIP + " if tp.partial: check_value = None else: check_value = enumvalue "
+                       "self._generate_cpy_const(True, enumerator, check_value=check_value)"):
+        # checked unless the enum is declared with '...'
+        enum_checked, enum_partial_checked = True, False
     else:
-        enum_checked = False
+        raise Untranslatable("_generate_cpy_enum_decl: check_value variant of unknown shape: %r" % norm_loop)
     f, text = fn("_generate_cpy_macro_decl")
     norm = " ".join(text.split())
     if norm != ("def _generate_cpy_macro_decl(self, tp, name): if tp == '...': check_value = None else: "
@@ -226,6 +238,7 @@ def translate_gen():
      /repo/src/cffi/parse_c_type.h  (_CFFI_F_CHECK_FIELDS, _CFFI_F_PACKED)
      /repo/src/c/_cffi_backend.c    (SF_PACKED, SF_STD_FIELD_POS)
      /repo/src/c/realize_c_type.c   (flag passed to the per-field size check)
+     /repo/src/c/parse_c_type.c     (parse_sequel: array length given by a constant's name; MAX_SSIZE_T)
    Do not edit: this committed copy is the snapshot used when the translator fails. *)
 From Coq Require Import ZArith Bool.
 From Cffi Require Import C12.Spec.
@@ -250,14 +263,20 @@ Local Open Scope Z_scope.
     out.append("Definition gen_check_fail_bits : Z := %s.\n" % g["bits"])
     out.append("(* which declarations pass a check_value to _generate_cpy_const *)")
     out.append("Definition gen_macro_checked : bool := true.")
-    out.append("Definition gen_enumerator_checked : bool := %s.\n" % cbool(enum_checked))
+    out.append("Definition gen_enumerator_checked : bool := %s.          (* enum e { A = 5 }; *)" % cbool(enum_checked))
+    out.append("Definition gen_partial_enumerator_checked : bool := %s.  (* enum e { A = 5, ... }; *)\n"
+               % cbool(enum_partial_checked))
     out.append("Definition F_CHECK_FIELDS : Z := %d." % _define(pch, "_CFFI_F_CHECK_FIELDS"))
     out.append("Definition F_PACKED : Z := %d." % _define(pch, "_CFFI_F_PACKED"))
     out.append("Definition SF_PACKED : Z := %d." % _define(bk, "SF_PACKED"))
     out.append("Definition SF_STD_FIELD_POS : Z := %d." % _define(bk, "SF_STD_FIELD_POS"))
     out.append("(* realize_c_type.c: detect_custom_layout(ct, %s, ctf->ct_size, fld->field_size, ...) *)" % fieldflag)
-    out.append("Definition realize_field_check_sflags : Z := %s." % fieldflag)
-    return "\n".join(out) + "\n"
+    out.append("Definition realize_field_check_sflags : Z := %s.\n" % fieldflag)
+    try:
+        out.append(c12_regen.translate(open(os.path.join(src, "c", "parse_c_type.c")).read()))
+    except c12_regen.Untranslatable as e:
+        raise Untranslatable(str(e))
+    return "\n".join(out)
 
 
 def regen(ctx):
@@ -314,6 +333,19 @@ def gen_const(rng, name, for_verify=False):
         ctype = "int" if abs(cval) < (1 << 31) else "long"
     elif r < 0.3 and -(1 << 31) <= cval < (1 << 31):
         form, ctype = "enumconst", "int"
+    if not for_verify and rng.random() < 0.3:
+        # values that make sense as array lengths (all integer types hold them); 2^63-1 / 2^63 = the limit
+        cval = rng.choice([1, 2, 3, 6, 9, 17, 64, 100, 127, 0])
+        if ctype in ("long", "unsigned long", "long long", "unsigned long long") and rng.random() < 0.3:
+            cval = rng.choice([LEN_MAX, LEN_MAX - 1, 1 << 62, 4097, 1 << 32])
+            if not W.INT_TYPES[ctype][1] and rng.random() < 0.5:
+                cval = rng.choice([1 << 63, (1 << 63) + 1])
+        if form == "plain" and cval >= (1 << 63):
+            form = "cast"
+        if form == "plain":
+            ctype = "int" if abs(cval) < (1 << 31) else "long"
+        elif form == "enumconst" and not (-(1 << 31) <= cval < (1 << 31)):
+            form = "cast"
     k = dict(name=name, ctype=ctype, cval=cval, form=form, decl="macro", cdef=cval, beyond=False)
     r = rng.random()
     if for_verify:
@@ -576,6 +608,59 @@ def layout_literal(fields, size, align):
     return "(mklayout %s %s %s)" % (clist(["(%s, %s)" % (cz(o), cz(s)) for o, s in fields]), cz(size), cz(align))
 
 
+LEN_MAX = (1 << 63) - 1       # MAX_SSIZE_T
+
+
+def len_literal(o):
+    """outcome of using a name as array length -> Coq literal of type option (res ps_len), or None"""
+    if "ok" in o:
+        return "Some (Ok (PSLen %s))" % cz(o["ok"]) if isinstance(o["ok"], int) else None
+    if o["err"] == "FFIError" and o.get("kind") in ("PSTooLarge", "PSDisagree", "PSNotPositive"):
+        return "Some (Ok (PSErr %s))" % o["kind"]
+    return None
+
+
+def check_as_length(ctx, case, what, name, c, declared, got, keyfn, model_in, lencases, lenowner):
+    """the property predicate for `name` used as an array length in run-time type strings, decided from
+    gcc's value c and the cdef's value (declared = None: '...', unchecked declaration, or partial enum);
+    then the observed outcome is queued for comparison with C12.Model.const_array_length"""
+    corr = "C12.Model.const_array_length vs generated module"
+    for phase, when in (("len_pre", "before"), ("len_post", "after")):
+        uses = got[phase]
+        ctx.count(len(uses))
+        mism = declared is not None and declared != c
+        if mism:
+            ctx.hist("as-length", "mismatch/zero" if c == 0 else "mismatch")
+            bad = {u: o["ok"] for u, o in uses.items() if "ok" in o}
+            if bad:
+                keys = {keyfn(v) for v in bad.values()}
+                ctx.violation(case, "%s %s: C value %d but cdef says %d; as an array length in a type string (%s lib.%s "
+                              "is read) it is used silently: %r" % (what, name, c, declared, when, name, bad),
+                              keys.pop() if len(keys) == 1 else None)
+        elif 0 <= c <= LEN_MAX:
+            ctx.hist("as-length", "valid")
+            bad = {u: o for u, o in uses.items() if o != {"ok": c}}
+            if bad:
+                ctx.violation(case, "%s %s = %d (cdef: %s) as an array length in a type string (%s lib.%s is read): %r"
+                              % (what, name, c, "same" if declared is not None else "'...'/unchecked", when, name, bad))
+        else:
+            ctx.hist("as-length", "negative" if c < 0 else "too-large")
+            bad = {u: o["ok"] for u, o in uses.items() if "ok" in o}
+            if bad:
+                ctx.violation(case, "%s %s = %d is not a valid array length, but used as one (%s lib.%s is read) gives %r"
+                              % (what, name, c, when, name, bad))
+        outs = list(uses.values())
+        if any(o != outs[0] for o in outs):
+            ctx.mismatch(case, "%s %s: the uses as an array length (%s lib.%s is read) differ: %r" % (what, name, when, name, uses), corr)
+            continue
+        lit = len_literal(outs[0])
+        if lit is None:
+            ctx.mismatch(case, "%s %s as an array length: outcome %r not in the model's range" % (what, name, outs[0]), corr)
+        else:
+            lencases.append((model_in, lit))
+            lenowner.append(case)
+
+
 def single(m, **kw):
     """the module case reduced to one item (for replay files)"""
     out = dict(kind="module", name=m["name"], consts=[], enums=[], structs=[], vars=[], funcs=[], typedefs=[])
@@ -620,6 +705,7 @@ def evaluate(ctx, cases):
     constcases, constowner = [], []
     structcases, structowner = [], []
     natcases, natowner = [], []
+    lencases, lenowner = [], []
     for m, r in zip(cases, out["results"]):
         if "harness_error" in r:
             ctx.obligation_broken("C12 harness on module %s" % m["name"], r["harness_error"])
@@ -686,22 +772,30 @@ def evaluate(ctx, cases):
                 else:
                     constcases.append(("(KMacro, %s, %s, %s)" % (promoted_type(k), cz(c), "None" if e is None else "Some " + cz(e)), lit))
                     constowner.append(case)
+            check_as_length(ctx, case, "constant", k["name"], c, e, got,
+                            lambda v, c=c: "zero-const-array-length" if (c == 0 and v == 0) else None,
+                            "(KMacro, %s, %s, %s)" % (promoted_type(k), cz(c), "None" if e is None else "Some " + cz(e)),
+                            lencases, lenowner)
         # ---- enumerators
         for en in m["enums"]:
             er = pr["enums"][en["name"]]
+            # a checked enum with a disagreeing enumerator: realising the enum type itself may raise
+            enum_mism = (not en["partial"]) and any(fact_const(facts, n) != d for n, _, d in en["items"])
+            relem = er["relements"]
+            if "ok" not in relem and not (enum_mism and relem.get("err") == "FFIError"):
+                ctx.violation(single(m, enums=[en]), "typeof('enum %s').relements raises %r" % (en["name"], relem))
             for n, cgen, d in en["items"]:
                 ctx.count()
                 c = fact_const(facts, n)
                 g = er["items"][n]
-                case = single(m, enums=[dict(en, items=[[n, cgen, d]])] if False else [en])
+                case = single(m, enums=[en])
                 if c != cgen:
                     ctx.obligation_broken("C12 generator", "gcc gives %s = %r, generator meant %r" % (n, c, cgen))
                     continue
-                rel = er["relements"].get("ok", {}).get(n) if "ok" in er["relements"] else None
                 ctx.hist("enumerator", "match" if d == c else "partial" if en["partial"] else "mismatch")
                 if d == c or en["partial"]:
-                    if g != {"ok": c} or rel != c:
-                        ctx.violation(case, "enumerator %s: C value %d, lib gives %r, typeof().relements %r" % (n, c, g, rel))
+                    if g != {"ok": c} or ("ok" in relem and relem["ok"].get(n) != c):
+                        ctx.violation(case, "enumerator %s: C value %d, lib gives %r, typeof().relements %r" % (n, c, g, relem))
                 else:
                     ctx.nontrivial(("enum", c, d))
                     if "ok" in g and g["ok"] == d:
@@ -709,11 +803,20 @@ def evaluate(ctx, cases):
                     elif "ok" in g:
                         ctx.violation(case, "enumerator %s: C value %d but cdef says %d; lib.%s silently gives %r"
                                       % (n, c, d, n, g["ok"]), "enumerator-unchecked")
+                kind = "KEnumeratorPartial" if en["partial"] else "KEnumerator"
                 lit = res_literal(g)
                 if lit is not None:
-                    constcases.append(("(KEnumerator, %s, %s, Some %s)" % (type_by_value(c), cz(c), cz(d)), lit))
+                    constcases.append(("(%s, %s, %s, Some %s)" % (kind, type_by_value(c), cz(c), cz(d)), lit))
                     constowner.append(case)
-            if er["sizeof"] != {"ok": int(facts["E|" + en["name"]][0])}:
+                else:
+                    ctx.mismatch(case, "enumerator %s: implementation outcome %r not in the model's range" % (n, g),
+                                 "C12.Model.lib_constant vs generated module")
+                check_as_length(ctx, case, "enumerator", n, c, None if en["partial"] else d,
+                                {"len_pre": er["len_pre"][n], "len_post": er["len_post"][n]},
+                                lambda v, c=c: "enumerator-unchecked" if v == c else None,
+                                "(%s, %s, %s, Some %s)" % (kind, type_by_value(c), cz(c), cz(d)), lencases, lenowner)
+            want_size = {"ok": int(facts["E|" + en["name"]][0])}
+            if er["sizeof"] != want_size and not (enum_mism and er["sizeof"].get("err") == "FFIError"):
                 ctx.violation(single(m, enums=[en]), "sizeof(enum %s): gcc %s, ffi %r" % (en["name"], facts["E|" + en["name"]], er["sizeof"]))
         # ---- structs
         for st in m["structs"]:
@@ -822,12 +925,14 @@ def evaluate(ctx, cases):
          "fun p => match p with (pa, pk, u, d, r) => realize_struct (struct_flags pa pk) u d r end",
          "reslayout_eqb", "C12.Model.realize_struct vs generated module"),
         (natcases, natowner, "fun p => match p with (pk, u, d) => natural pk u d end", "reslayout_eqb",
-         "C12.Model.natural (what the cdef implies) vs gcc layout of the cdef's struct"))
+         "C12.Model.natural (what the cdef implies) vs gcc layout of the cdef's struct"),
+        (lencases, lenowner, "fun p => match p with (k, t, c, d) => const_array_length k t c d end", "reslen_eqb",
+         "C12.Model.const_array_length vs generated module"))
     from concurrent.futures import ThreadPoolExecutor
-    with ThreadPoolExecutor(3) as ex:
+    with ThreadPoolExecutor(4) as ex:
         # every expected literal carries its type: a shard whose outcomes are all `Err _` would
         # otherwise leave the parameter of `Err` undetermined
-        types = ["option (res Z)", "res layout", "res layout"]
+        types = ["option (res Z)", "res layout", "res layout", "option (res ps_len)"]
         futs = [ex.submit(vlib.coq_mismatches, ["C12.Spec", "C12.Gen", "C12.Model"], fexpr, eqb,
                           [(i, "(%s : %s)" % (o, ty)) for i, o in cases_], 400)
                 for (cases_, owner, fexpr, eqb, corr), ty in zip(batches, types)]
@@ -837,7 +942,8 @@ def evaluate(ctx, cases):
             ctx.obligation_broken("C12 model evaluation", err)
         for i in bad:
             ctx.mismatch(owner[i], "model = %s, observed %s on input %s" % (outs.get(i), cases_[i][1], cases_[i][0][:400]), corr)
-    ctx.extra["model_evaluations"] = dict(constants=len(constcases), structs=len(structcases), natural=len(natcases))
+    ctx.extra["model_evaluations"] = dict(constants=len(constcases), structs=len(structcases), natural=len(natcases),
+                                          array_lengths=len(lencases))
     for m in cases[:1]:
         ctx.sample(single(m, consts=m["consts"][:2], structs=m["structs"][:2], enums=m["enums"][:1]))
 
@@ -857,9 +963,16 @@ def run(ctx):
         "field type changed within its category, adjacent fields swapped, field dropped, array length changed, packing "
         "changed, '[...]' length; each with and without '...;'), 3 globals, 3 functions, 2 typedefs; built by "
         "ffi.compile() and compared with facts printed by a separately gcc-compiled program over the same C source. "
+        "Every constant and enumerator is read as lib.X (twice), ffi.integer_const(X) and used as an array length name in "
+        "the type strings of ffi.typeof/sizeof/new(pointer)/cast (+ a real ffi.new('uint8_t[X]') for values <= 4096), once "
+        "before and once after lib.X is read (values for lengths: small, 0, 2^62, SSIZE_MAX-1, SSIZE_MAX, 2^63, negative). "
         "Non-trivial = constant/enumerator whose cdef value differs from the C value, or struct that is mutated or whose "
         "cdef layout differs from the C layout; distinct by (values) resp. (field lists, flags).")
     ctx.assumptions += [
+        "the statements of parse_sequel's constant-name array-length branch are translated by tools/props/c12_regen.py "
+        "(mini-C: if/return parse_error/assignment to int locals; operators || && | & == != < > <= >= !; int operands as "
+        "mathematical integers, int-vs-unsigned-64 comparisons modulo 2^64); the lookup search_in_globals and the "
+        "realisation of the parsed array type are tied by the correspondence run only",
         "hand-written model C12/Model.v of realize_global_int, do_realize_lazy_struct_lock_held, detect_custom_layout and "
         "the non-bitfield part of b_complete_struct_or_union (tied by this run's differential test); the generated C "
         "expressions, _cffi_check_int and the flag values are regenerated from the source text (C12/Gen.v)",
@@ -871,22 +984,37 @@ def run(ctx):
 
 
 MANIFEST = dict(
-    technique="Coq proof (integer-constant check over a deep embedding of the regenerated C expressions; struct "
-              "realisation with forced offsets by induction over the field list) + regeneration of Gen.v from the "
-              "source text + differential correspondence on generated API-mode modules against gcc",
+    technique="Coq proof (integer-constant check over a deep embedding of the regenerated C expressions; the decision "
+              "parse_sequel takes on the constant getter's return code, regenerated statement by statement from "
+              "parse_c_type.c; struct realisation with forced offsets by induction over the field list) + regeneration of "
+              "Gen.v from the source text + differential correspondence on generated API-mode modules against gcc",
     text="Proof: for every '#define'-style integer constant (any promoted integer type, value c) and every cdef value e "
          "expressible as a C literal, lib.X returns c if c = e and raises ffi.error otherwise (values that are no C literal "
-         "are refused when the module is generated); with '...' it returns c. This does NOT hold for enumerators: API "
-         "mode passes no check value for them, the compiler's value is used silently (C12_enumerator_check_refuted, "
-         "open finding enumerator-unchecked). For every struct "
+         "are refused when the module is generated); with '...' it returns c; the same iff holds for every kind of "
+         "declaration to which the recompiler passes a check value (C12_checked_declaration_iff). The constant's NAME used as "
+         "an array length in a run-time type string (ffi.typeof/new/cast/sizeof 'char[N]'): for every getter return code "
+         "and 64-bit value the result of the regenerated parse_sequel branch is characterised exactly "
+         "(C12_array_length_decision: code 0 -> the value if <= SSIZE_MAX else error; any other code -> a length only if "
+         "the value is 0; codes >= 2 with a non-zero value -> 'disagreement' error), and end to end through the generated "
+         "getter: agreeing / '...' / unchecked constants give the compiler's value when it is a valid length, a "
+         "disagreeing checked constant raises for every C value except 0 (C12_array_length_mismatch_raises_partial; "
+         "C12_array_length_zero_mismatch_refuted, open finding zero-const-array-length with a one-line fix diff). "
+         "Enumerators: API mode passes no check value for them, the compiler's value is used silently "
+         "(C12_enumerator_check_refuted, open finding enumerator-unchecked; C12_enumerator_by_flag states both cases); "
+         "enumerators of 'enum { A, ... }' always give the compiler's value. For every struct "
          "declaration (named non-bitfield fields) and every compiler report: without '...' realisation succeeds iff "
          "the report equals the layout the cdef implies (offsets, sizes, total size, alignment) and raises ffi.error "
          "otherwise; with '...' only field sizes are compared; a resulting layout is always the compiler's. Tie: the "
-         "generated C expressions/macro/flags are re-extracted from the source on every run; model vs real modules on "
-         "random (cdef, C) pairs and single-point cdef mutations.",
+         "generated C expressions/macro/flags, the enum/macro callers of _generate_cpy_const and the statements of the "
+         "array-length branch of parse_sequel are re-extracted from the source on every run (fail closed); model vs real "
+         "modules on random (cdef, C) pairs and single-point cdef mutations, every constant and enumerator being used as "
+         "lib.X, ffi.integer_const(X) and as array length in typeof/sizeof/new/cast type strings before and after lib.X is read.",
     note="Partial: the C compiler and the generated glue are exercised by sampling; bitfields and anonymous nested "
-         "structs are out of the model. Known findings: enumerator values are not checked in API mode "
-         "(enumerator-unchecked, open); cdef constants outside (-2^64, 2^64) used to be truncated by gcc and accepted "
-         "(const-beyond-64bit, fixed in /repo 52726e0). Calls, globals, global addresses, typedefs, bitfields and "
+         "structs are out of the model; array realisation after parsing (new_array_type) is not modelled, only compared. "
+         "Known findings: enumerator values are not checked in API mode (enumerator-unchecked, open; upstream's "
+         "test_typedef_broken_complete_enum asserts the silent behaviour, so no fix is proposed); a checked constant whose "
+         "C value is 0 is accepted as array length 0 although the cdef says otherwise (zero-const-array-length, open, "
+         "findings/C12-zero-const-array-length.diff); cdef constants outside (-2^64, 2^64) used to be truncated by gcc and "
+         "accepted (const-beyond-64bit, fixed in /repo 52726e0). Calls, globals, global addresses, typedefs, bitfields and "
          "anonymous nested structs are decided by the correspondence run only.",
     design_ref="DESIGN.md §4 C12")
